@@ -4,6 +4,7 @@
 -/
 import BS.Proofs.Total
 import BS.Proofs.History
+import BS.Proofs.Extra
 
 namespace BS.Props.C19
 open BS BS.Impl
@@ -27,6 +28,22 @@ theorem queries_never_panic (hdr ihdr : Bytes) (dir : Dir) (s : Sess) (xs : List
     dataLenLines s.d = .ok xs.length ∧
     lastLineOf (mainRegion dir s) s.d s.cb ≠ .error .panic :=
   queries_total hdr ihdr dir s xs hinv hsize
+
+/-- **… also on a session with caches** (levels listed by increasing bucket size): no query
+panics; `read_n` included, for every `n` (0 returns nothing after the ordering assert passed). -/
+theorem queries_never_panic_with_caches (hdr ihdr' : Bytes) (dir : Dir) (s : Sess) (xs : List Entry)
+    (hinv : SessInvC hdr ihdr' dir s xs)
+    (hsorted : (s.caches.map (·.B)).Pairwise (· ≤ ·))
+    (hsize0 : (Spec.encode s.d.p xs).length / lineSize s.d.p ≤ 2^32)
+    (hsizes : ∀ c ∈ s.caches,
+      (Spec.encode s.d.p (Spec.bucketMeans c.B (Spec.linMean s.d.p) xs)).length / lineSize s.d.p ≤ 2^32) :
+    (∀ sb eb, apiReadAll dir s sb eb ≠ .error .panic) ∧
+    (∀ n sb eb, apiReadFirstN dir s n sb eb ≠ .error .panic) ∧
+    (∀ n sb eb, apiReadN dir s n sb eb ≠ .error .panic) ∧
+    (∀ sb eb, apiNLines dir s sb eb ≠ .error .panic) ∧
+    dataLenLines s.d = .ok xs.length ∧
+    lastLineOf (mainRegion dir s) s.d s.cb ≠ .error .panic :=
+  queries_total_caches hdr ihdr' dir s xs hinv hsorted hsize0 hsizes
 
 /-- **No append panics, whatever is appended**: creating a series (any payload size, header
 that fits, any admissible cache configuration) and making any sequence of append attempts —
